@@ -1,4 +1,151 @@
 import Reduino.Lang.Promote
 /- helper lemmas for Props/C10.lean (individual Mathlib modules may be imported here) -/
 namespace Reduino.Lemmas.C10
+open Reduino.Lang.Promote
+
+/-! ### `sorted` is a canonical form of a list up to permutation -/
+
+theorem strLe_trans (a b c : String) : strLe a b = true → strLe b c = true → strLe a c = true := by
+  simp only [strLe, decide_eq_true_eq]
+  exact String.le_trans
+
+theorem strLe_total (a b : String) : (strLe a b || strLe b a) = true := by
+  simp only [strLe, Bool.or_eq_true, decide_eq_true_eq]
+  exact String.le_total a b
+
+theorem strLe_antisymm (a b : String) : strLe a b = true → strLe b a = true → a = b := by
+  simp only [strLe, decide_eq_true_eq]
+  exact String.le_antisymm
+
+theorem sorted_perm (l : List String) : (sorted l).Perm l :=
+  List.mergeSort_perm l strLe
+
+theorem sorted_pairwise (l : List String) : (sorted l).Pairwise (fun a b => strLe a b = true) :=
+  List.pairwise_mergeSort strLe_trans strLe_total l
+
+theorem sorted_eq_of_perm {l l' : List String} (h : l.Perm l') : sorted l = sorted l' := by
+  refine List.Perm.eq_of_pairwise (le := fun a b => strLe a b = true) ?_ (sorted_pairwise l) (sorted_pairwise l') ?_
+  · intro a b _ _ hab hba
+    exact strLe_antisymm a b hab hba
+  · exact (sorted_perm l).trans (h.trans (sorted_perm l').symm)
+
+/-! ### invariants of `record` through the inner fold -/
+
+theorem record_mem (parent ord : List String) (n x : String) :
+    x ∈ record parent ord n ↔ (x ∈ ord ∨ (x ∉ parent ∧ x = n)) := by
+  unfold record
+  split
+  · rename_i hc
+    constructor
+    · intro hx; exact Or.inl hx
+    · rintro (hx | ⟨hp, rfl⟩)
+      · exact hx
+      · rcases hc with hc | hc
+        · exact absurd hc hp
+        · exact hc
+  · rename_i hc
+    simp only [not_or] at hc
+    simp only [List.mem_append, List.mem_singleton]
+    constructor
+    · rintro (hx | rfl)
+      · exact Or.inl hx
+      · exact Or.inr ⟨hc.1, rfl⟩
+    · rintro (hx | ⟨_, rfl⟩)
+      · exact Or.inl hx
+      · exact Or.inr rfl
+
+theorem record_nodup (parent ord : List String) (n : String) (h : ord.Nodup) :
+    (record parent ord n).Nodup := by
+  unfold record
+  split
+  · exact h
+  · rename_i hc
+    simp only [not_or] at hc
+    rw [List.nodup_append]
+    refine ⟨h, by simp, ?_⟩
+    intro a ha b hb
+    simp only [List.mem_singleton] at hb
+    subst hb
+    intro hab
+    subst hab
+    exact hc.2 ha
+
+theorem foldl_record_mem (parent : List String) (l ord : List String) (x : String) :
+    x ∈ l.foldl (record parent) ord ↔ (x ∈ ord ∨ (x ∉ parent ∧ x ∈ l)) := by
+  induction l generalizing ord with
+  | nil => simp
+  | cons n t ih =>
+    rw [List.foldl_cons, ih, record_mem]
+    simp only [List.mem_cons]
+    constructor
+    · rintro ((h | ⟨hp, rfl⟩) | ⟨hp, ht⟩)
+      · exact Or.inl h
+      · exact Or.inr ⟨hp, Or.inl rfl⟩
+      · exact Or.inr ⟨hp, Or.inr ht⟩
+    · rintro (h | ⟨hp, rfl | ht⟩)
+      · exact Or.inl (Or.inl h)
+      · exact Or.inl (Or.inr ⟨hp, rfl⟩)
+      · exact Or.inr ⟨hp, ht⟩
+
+theorem foldl_record_nodup (parent : List String) (l ord : List String) (h : ord.Nodup) :
+    (l.foldl (record parent) ord).Nodup := by
+  induction l generalizing ord with
+  | nil => exact h
+  | cons n t ih =>
+    rw [List.foldl_cons]
+    exact ih _ (record_nodup parent ord n h)
+
+/-! ### the outer fold, with a general accumulator -/
+
+theorem outer_nodup (arrange : List String → List String) (parent : List String)
+    (bs : List (List String)) (acc : List String) (h : acc.Nodup) :
+    (bs.foldl (fun ord names => (arrange names).foldl (record parent) ord) acc).Nodup := by
+  induction bs generalizing acc with
+  | nil => exact h
+  | cons b t ih =>
+    rw [List.foldl_cons]
+    exact ih _ (foldl_record_nodup parent _ acc h)
+
+theorem outer_mem (arrange : List String → List String) (parent : List String)
+    (harr : ∀ l, (arrange l).Perm l)
+    (bs : List (List String)) (acc : List String) (x : String) :
+    x ∈ bs.foldl (fun ord names => (arrange names).foldl (record parent) ord) acc ↔
+      (x ∈ acc ∨ (x ∉ parent ∧ ∃ b ∈ bs, x ∈ b)) := by
+  induction bs generalizing acc with
+  | nil => simp
+  | cons b t ih =>
+    rw [List.foldl_cons, ih, foldl_record_mem, (harr b).mem_iff]
+    simp only [List.mem_cons, exists_eq_or_imp]
+    constructor
+    · rintro ((h | ⟨hp, hb⟩) | ⟨hp, ht⟩)
+      · exact Or.inl h
+      · exact Or.inr ⟨hp, Or.inl hb⟩
+      · exact Or.inr ⟨hp, Or.inr ht⟩
+    · rintro (h | ⟨hp, hb | ht⟩)
+      · exact Or.inl (Or.inl h)
+      · exact Or.inl (Or.inr ⟨hp, hb⟩)
+      · exact Or.inr ⟨hp, ht⟩
+
+theorem outer_sorted_congr (parent : List String) (bs bs' : List (List String)) (acc : List String)
+    (hlen : bs.length = bs'.length)
+    (h : ∀ i (h1 : i < bs.length) (h2 : i < bs'.length), (bs[i]).Perm (bs'[i])) :
+    bs.foldl (fun ord names => (sorted names).foldl (record parent) ord) acc =
+    bs'.foldl (fun ord names => (sorted names).foldl (record parent) ord) acc := by
+  induction bs generalizing bs' acc with
+  | nil =>
+    cases bs' with
+    | nil => rfl
+    | cons b' t' => simp at hlen
+  | cons b t ih =>
+    cases bs' with
+    | nil => simp at hlen
+    | cons b' t' =>
+      simp only [List.length_cons, Nat.add_right_cancel_iff] at hlen
+      have h0 : b.Perm b' := h 0 (by simp) (by simp)
+      rw [List.foldl_cons, List.foldl_cons, sorted_eq_of_perm h0]
+      apply ih t' _ hlen
+      intro i h1 h2
+      have := h (i + 1) (by simp; omega) (by simp; omega)
+      simpa using this
+
 end Reduino.Lemmas.C10
